@@ -244,7 +244,7 @@ func runC02(r *Run, rng *Rng, thorough bool) {
 
 func runC03(r *Run, rng *Rng, thorough bool) {
 	ks := keys()
-	n := 12
+	n := 40
 	if thorough {
 		n = 400
 	}
